@@ -107,6 +107,28 @@ CHECKS = {
         note="Trusted: Eigen stand-in, g++ 12; blame analysis separates harness-driver build errors (machinery) from generated-code / runtime-header errors.",
         technique="TLA+ specs (Formak.tla for filters, ManagedFilter.tla for tick histories) + TLC simulation; replay into compiled C++",
     ),
+    "C14": dict(
+        category="fault_enumeration",
+        text="Definition.tla states the structural rules as named predicates and a 20-kind fault catalogue (Inject); TLC proves at start-up "
+             "that every applicable fault falsifies Valid, enumerates every single fault at every position of 4 valid base definitions "
+             "(and every pair in the thorough tier; invariants: faults never cancel, refusal is monotone along the pipeline) and states "
+             "the expected outcome at ui.Model, python.compile, python.compile_ekf, cpp.compile, cpp.compile_ekf; every case is presented "
+             "to the real entry points (C++ ones with a synthetic argv; a refused definition must not leave a source file).",
+        design_ref="DESIGN.md section 4 C14",
+        note="Trusted: the rule/observability table of Definition.tla (which entry point can observe which rule); refused = any exception.",
+        technique="TLA+ spec (Definition.tla fault catalogue) + TLC exhaustive enumeration; spec->code replay into the five entry points",
+    ),
+    "C15": dict(
+        category="model_checking",
+        text="Codegen.tla generates presentations of a definition (a declaration permutation for each of ten roles, container kind, "
+             "string-vs-expression updates); each PYTHONHASHSEED gets fresh processes that render every (definition, presentation) "
+             "through the real cpp.compile_ekf and python.compile_ekf; the recorded generation events (sha256 of header, source, "
+             "Python layouts) are validated by TLC against the write-once digest registers of Codegen_Trace.tla.",
+        design_ref="DESIGN.md section 4 C15",
+        note="Trusted: sha256; the register spec; string-form and expression-form presentations are separate registers (the property "
+             "does not claim they coincide).",
+        technique="TLA+ spec (Codegen.tla) generates presentations; code->spec trace validation of generation events (Codegen_Trace.tla)",
+    ),
 }
 
 NOT_YET = "check not built yet (work in progress; see DESIGN.md section 8 build order)"
